@@ -221,6 +221,23 @@ impl Cell2 {
             .map(move |(x, y)| self.to_cartesian_translate(transform, x, y))
     }
 
+    /// The periodic images of a transform out to a number of cells along each of the cell
+    /// vectors, without the cell itself and with the nearest cells first.
+    pub fn periodic_images_within<'a>(
+        &'a self,
+        transform: Transform2,
+        shells_a: i64,
+        shells_b: i64,
+    ) -> impl Iterator<Item = Transform2> + 'a {
+        fn outwards(limit: i64) -> impl Iterator<Item = i64> {
+            (0..=limit).flat_map(|i| if i == 0 { vec![0] } else { vec![i, -i] })
+        }
+        outwards(shells_a)
+            .flat_map(move |x| outwards(shells_b).map(move |y| (x, y)))
+            .filter(|&(x, y)| !(x == 0 && y == 0))
+            .map(move |(x, y)| self.to_cartesian_translate(transform, x, y))
+    }
+
     pub fn get_corners(&self) -> Vec<Point2<f64>> {
         let points = vec![
             Point2::new(-0.5, -0.5),
